@@ -57,6 +57,13 @@ CHECKS = {
          "offset must raise a decode error or be itself well-formed (byte-identical re-encoding); oversize fields must make write() raise ValueError.",
          "message dispatch by type byte is out of scope (C06); NextProtocol padding content is opaque; record-layer framing is C14/C08",
          "DESIGN.md §4 C15"),
+ "C19": ("exploration",
+         "property-based testing: snapshot purity/idempotence checks, enumerated out-of-domain values, and an under-approximating compatibility model vs real loopback handshakes",
+         "validate() is run on lattice-constructed settings with a deep snapshot before/after (also when it raises), validate(validate(s)) is compared field-wise, results may name only loaded back-ends; every documented field is set to "
+         "out-of-domain values (35 fields, 6 cross-field combinations) and must raise ValueError; settings pairs for which an independent under-approximating model finds a witness (highest common version, suite, group, signature scheme, key size) "
+         "and every listed suite pinned on both sides must complete a handshake.",
+         "the compatibility model never counts unclassifiable pairs against the code; two listed-but-dead suites (0x40, 0x6A) are an open known finding",
+         "DESIGN.md §4 C19"),
  "C20": ("exploration",
          "exhaustive enumeration of (suite, version, role) with an IANA-table oracle, reference receiver and reference PRF; MITM rewriting for undefined pairs",
          "Every suite id the library lists x every version is enumerated: defined pairs are negotiated between pinned endpoints and their records re-opened by a reference "
